@@ -48,6 +48,13 @@ pub fn c03_consumers(cfg: &Config, s: &str) -> Vec<(&'static str, String)> {
                 r.report().write("f", s, color, &mut out).expect("write to a Vec cannot fail");
             }
         });
+        run!("report.write into a full sink", {
+            // a sink that accepts 16 bytes and then nothing: the call must come back (a loop that waits for
+            // progress would be caught by the watchdog)
+            let mut small = [0u8; 16];
+            let mut sink: &mut [u8] = &mut small[..];
+            let _ = r.report().write("f", s, false, &mut sink);
+        });
         run!("report.display", {
             let _ = r.report().to_string();
             for d in r.report().iter() {
@@ -393,8 +400,18 @@ impl<'a> SpanCheck<'a> {
                 r.write("f", s, color, &mut out).map(|_| out)
             }) {
                 Ok(Ok(whole)) => {
-                    // environment deviation: a sink that takes 5 bytes per call must receive the same text
+                    // environment deviation: a sink that takes 5 bytes per call must receive the same text, and a
+                    // sink that is full after 48 bytes must make the call return (with an error), not spin
                     if !r.is_empty() {
+                        let mut small = [0u8; 48];
+                        if whole.len() > 48 {
+                            let mut sink: &mut [u8] = &mut small[..];
+                            match guarded(|| r.write("f", s, color, &mut sink)) {
+                                Ok(Err(_)) => {}
+                                Ok(Ok(())) => self.errs.push((format!("report rendering reports success on a full sink: {what}"), format!("a 48-byte slice took a {}-byte report", whole.len()))),
+                                Err(m) => self.errs.push((format!("report rendering panicked: {what}"), m)),
+                            }
+                        }
                         let mut t = ShortWrites { buf: Vec::new(), k: 5 };
                         match guarded(|| r.write("f", s, color, &mut t)) {
                             Ok(Ok(())) if t.buf == whole => {}
